@@ -26,14 +26,18 @@ def salts(tier):
     return 2 if tier == 'quick' else 8
 
 def plan(tier):
-    return dict(runs=1280 if tier == 'quick' else 24000, timeout=900 if tier == "quick" else 10800)
+    return dict(runs=1920 if tier == 'quick' else 24000, timeout=900 if tier == "quick" else 10800)
 
 def family_case(ctx_seed, fam):
     rng = seeds.rng(ctx_seed, ID, 'family', fam)
     wl = proofwl.weighted_logics()
     logic = wl[fam % len(wl)]
     prems, conc = proofwl.gen_case(rng, logic)
-    if refsem.get(logic).modal and rng.random() < 0.12:
+    sem = refsem.get(logic)
+    if sem.modal and sem.classical and rng.random() < 0.10:
+        # identity statements and predications spread over several worlds
+        prems, conc = proofwl.identity_modal_template(rng)
+    elif sem.modal and rng.random() < 0.16:
         # premise order and multiplicity matter most where several modal premises feed one world
         prems, conc = proofwl.modal_interplay_template(rng)
     return logic, prems, conc
